@@ -66,6 +66,7 @@ def configs(max_idle):
         "idle": st.one_of(st.floats(1, 20), st.floats(1, max_idle)),
         "cut": st.sampled_from(["none", "both", "c2s", "s2c", "both"]),
         "delay": st.sampled_from([0.001, 0.01, 0.04]),
+        "late": st.booleans(),      # ServerContext settings made after the server object was constructed (still before start)
     })
 
 
@@ -164,7 +165,7 @@ def idle_body(ctx, c):
                     errors.append("ServerContext setter raised %s: %s" % (type(e).__name__, e))
         ctxt.setInterval(c["base_ms"] / 1000.0 * c["tick_k"])
 
-    with W.World(seed=c["seed"], flavour=c["flavour"], configure=configure) as w:
+    with W.World(seed=c["seed"], flavour=c["flavour"], configure=configure, configure_late=c.get("late", False)) as w:
         st_ = Stepper(w, c)
         tick, frame = st_.tick, st_.frame
         delay = c["delay"]
@@ -274,6 +275,7 @@ unanswered = st.fixed_dictionaries({
     "mode": st.sampled_from(["before", "after", "both"]),
     "kind": st.sampled_from(["no-reply", "no-reply", "half-open-server"]),
     "s_temp": st.one_of(st.none(), st.sampled_from([0.5, 1.0, 3.0])),
+    "late": st.booleans(),
 })
 
 
@@ -289,7 +291,7 @@ def unanswered_body(ctx, c):
             except Exception as e:
                 errors.append("setTempConnectionTimeout raised %r" % (e,))
 
-    with W.World(seed=c["seed"], flavour=c["flavour"], configure=configure) as w:
+    with W.World(seed=c["seed"], flavour=c["flavour"], configure=configure, configure_late=c.get("late", False)) as w:
         frame = c["frame_ms"] / 1000.0
         if c["kind"] == "half-open-server":
             # an established client keeps the server loop ticking (a server without connections sleeps until the next
@@ -316,7 +318,7 @@ def unanswered_body(ctx, c):
             ctx.violation("setter-raises", errors[0])
         t_first_seen = None
         t_forgot = None
-        t_end = w.clock.t + max(T, s_temp) + 1.5
+        t_end = w.clock.t + max(T, s_temp) + 1.5 + (5.5 if c["seed"] % 3 == 0 else 0.0)
         while w.clock.t < t_end:
             w.step(frame)
             if c["kind"] == "half-open-server":
@@ -332,6 +334,8 @@ def unanswered_body(ctx, c):
             lo, hi = t_hello + T, t_hello + T + 2 * frame + EPS
             if not (lo < ends[0] <= hi):
                 ctx.violation("connect-timeout-instant", "%s: DISCONNECTED %.4f s after the hello, expected within (%.2f, %.4f]" % (what, ends[0] - t_hello, T, T + 2 * frame))
+        if ends and str(ch.status()).split(".")[-1] != "DISCONNECTED":
+            ctx.violation("unanswered-connect-final-status", "%s: ended DISCONNECTED at %.3f but the status later became %s (log %r)" % (what, ends[0] - t_hello, ch.status(), ch.status_log[-3:]))
         if c["callback"]:
             if [v for _, v in ch.connect_cb] != [False]:
                 ctx.violation("connect-callback", "%s: connect callback invocations %r (expected exactly one False)" % (what, ch.connect_cb))
